@@ -75,7 +75,7 @@ CONFIG = dict(
          "half of the cases publishes itself, then 2-9 media messages (requestoffer / sendoffer / selectStream / offer / answer / "
          "candidate / endOfCandidates to the bystander, itself or nobody) whose payload members (substream, temporal, audio, "
          "video, type, sdp, candidate, bitrate, sid) are in 1/3 of the cases replaced by a value of another JSON type, plus the "
-         "general mutations; a third family (40 quick / 150 thorough cases, `world mcu=<0|1> by=<flags>`) is about the "
+         "general mutations; a third family (40 quick / 100 thorough cases, `world mcu=<0|1> by=<flags>`) is about the "
          "*recipient's* side: the bystander is in no room (n), has `hide-displaynames` (h) and/or is in the call (c); scripted "
          "opening (0-2 messages for the connected bystander, `by drop` = its connection goes away without bye and the session waits "
          "to be resumed, in 1/3 of the cases a battery derived from the tree under test - for every struct type a forwarded payload "
@@ -84,7 +84,7 @@ CONFIG = dict(
          "built by reflection over those types (every member absent / null / other JSON type / present), `by resume`) and a random "
          "continuation with further sender states, drops and resumes; while the bystander is detached the harness reports what is "
          "*queued* for it (read from the session, barrier markers included) and at the resume compares what arrives with what was "
-         "queued; a fourth family (15 / 40 cases, `state remote`) sends hellos of every kind and other frames over a connection "
+         "queued; a fourth family (15 / 30 cases, `state remote`) sends hellos of every kind and other frames over a connection "
          "without session that reaches the hub the way a connection proxied from another cluster node does (a HandlerClient that "
          "is not a *Client, fed through Hub.OnMessageReceived); every frame is followed by "
          "barriers on the sender's connection and on the backend-room, room, user and session subjects of both clients, "
